@@ -231,3 +231,48 @@ package lsm
 //@   loop 1 invariant [listing] !removedWithoutOwnPermission && lsm != nil
 //@   loop 2 invariant [cleaning] !removedWithoutOwnPermission && lsm != nil
 //@   loop 3 invariant [opening] !removedWithoutOwnPermission && lsm != nil
+
+// C14 (SST half): a block read from disk is handed out, and put into the block cache, only
+// after its checksum has been verified; a block whose verification failed is neither
+// returned nor cached (a cached corrupt block would be served by the next read without any
+// check). Ghost counters: blockChecksPassed counts verifyCheckSum calls that returned nil,
+// blocksCached counts cache insertions, cachedSawChecks is blockChecksPassed as seen by the
+// last insertion.
+//@ ghost var blockChecksPassed Int
+//@ ghost var blocksCached Int
+//@ ghost var cachedSawChecks Int
+//@ func (block).verifyCheckSum
+//@   trusted
+//@   ghost blockChecksPassed = (result == nil ? blockChecksPassed + 1 : blockChecksPassed)
+//@   modifies nothing
+//@ func (*cache).addBlock
+//@   trusted
+//@   ghost blocksCached = blocksCached + 1
+//@   ghost cachedSawChecks = blockChecksPassed
+//@   modifies nothing
+//@ func (*cache).getBlock
+//@   trusted
+//@   modifies nothing
+//@ func (*table).read
+//@   trusted
+//@   modifies nothing
+//@ func (*table).index
+//@   trusted
+//@   modifies nothing
+//@ func (*table).blockOffset
+//@   trusted
+//@   modifies nothing
+//@ func (*table).blockCacheKey
+//@   trusted
+//@   modifies nothing
+//@ func (*table).level
+//@   trusted
+//@   modifies nothing
+
+//@ func (*table).loadBlock
+//@   property C14
+//@   safety none
+//@   ensures [cached-only-after-checksum] blocksCached > old(blocksCached) ==> cachedSawChecks > old(blockChecksPassed)
+//@   ensures [unverified-block-only-from-cache] result1 == nil && blockChecksPassed == old(blockChecksPassed) ==> blocksCached == old(blocksCached)
+//@   ensures [failed-check-is-an-error] blockChecksPassed == old(blockChecksPassed) && blocksCached > old(blocksCached) ==> result1 != nil
+//@   modifies heap, ghost(blockChecksPassed), ghost(blocksCached), ghost(cachedSawChecks)
